@@ -168,6 +168,34 @@ def run_harness(op, args, workdir, tag, log, timeout=3000, binary=None, env=None
     return lines, crashed, False
 
 
+def run_overlay_test(pkg_rel, overlay_map, test_name, gen_op, gen_args, workdir, tag, log, timeout=3000, race=False):
+    """Cases are generated by the harness (`gen_op`), executed by a test file that is *added* to a
+    package of /repo at build time with `go test -overlay` (access to package main and unexported
+    fields; nothing is written into /repo), and come back as lines for the Lean driver."""
+    cases = os.path.join(workdir, tag + ".cases.jsonl")
+    lines = os.path.join(workdir, tag + ".jsonl")
+    with open(cases, "w") as f:
+        p = subprocess.run([HARNESS, gen_op] + gen_args, stdout=f, stderr=subprocess.PIPE, text=True, env=GOENV, timeout=timeout)
+    if p.returncode != 0:
+        log.append("case generation %s failed: %s" % (gen_op, p.stderr[-800:]))
+        return lines, False
+    ov = os.path.join(workdir, tag + ".overlay.json")
+    with open(ov, "w") as f:
+        json.dump({"Replace": {os.path.join(REPO, k): os.path.join(VERIF, v) for k, v in overlay_map.items()}}, f)
+    env = dict(GOENV, VERIF_CASES=cases, VERIF_OUT=lines)
+    cmd = ["go", "test", "-overlay", ov, "-vet=off", "-count=1", "-run", test_name, "."]
+    if race:
+        env["CGO_ENABLED"] = "1"
+        cmd.insert(2, "-race")
+    t = time.time()
+    rc, out = sh(cmd, cwd=os.path.join(REPO, pkg_rel), env=env, timeout=timeout)
+    log.append("go test -overlay %s %s: rc=%d %.1fs" % (pkg_rel, test_name, rc, time.time() - t))
+    if rc != 0:
+        log.append(out[-3000:])
+        return lines, False
+    return lines, os.path.exists(lines)
+
+
 def run_driver(lines, log, timeout=3000):
     outp = lines + ".out"
     with open(lines) as fin, open(outp, "w") as fout:
@@ -300,7 +328,8 @@ def run_check(spec, res, workdir):
                            "the facts regenerated from the working tree no longer satisfy this theorem" if th in failing_names else "")
         hits = forbidden_tokens()
         res.oblige("lean:no-proof-escapes", not hits, "; ".join(hits[:5]))
-        theorems = spec.get("theorems", [])
+        theorems = list(spec.get("theorems", [])) + [t for t in theorems_of_modules(spec.get("modules", [])) if t not in spec.get("theorems", [])]
+        res.extra["theorems"] = theorems
         if theorems and not any(n.startswith("lean:module:") and not o for n, o, _ in res.obligations):
             ax = audit_axioms(pid, spec.get("modules", []), theorems, log)
             for th in theorems:
@@ -337,7 +366,12 @@ def run_check(spec, res, workdir):
             okr = opts["runner"](res, workdir, rseed, rargs, opts)
             corr_ok = corr_ok and okr
             continue
-        lines, crashed, okh = run_harness(op, rargs, workdir, "%s-%d" % (op, i), log, binary=binary)
+        if opts.get("overlay"):
+            o = opts["overlay"]
+            lines, okh = run_overlay_test(o["pkg"], o["files"], o["test"], op, rargs, workdir, "%s-%d" % (op, i), log,
+                                          race=(o.get("race") and tier == "thorough"))
+        else:
+            lines, crashed, okh = run_harness(op, rargs, workdir, "%s-%d" % (op, i), log, binary=binary)
         if not okh:
             res.oblige("harness:run:%s#%d" % (op, i), False, "harness did not complete")
             continue
@@ -383,6 +417,31 @@ def corpus_file(pid, workdir):
     with open(path, "w") as f:
         f.write("\n".join(cases) + "\n")
     return path
+
+
+def theorems_of_modules(modules):
+    """every `theorem` declared in the property modules (Sheens/Props/*.lean), with its namespace"""
+    names = []
+    for m in modules:
+        path = os.path.join(LEAN, *m.split(".")) + ".lean"
+        if not os.path.exists(path):
+            continue
+        ns = []
+        src = open(path).read()
+        src = re.sub(r"/-.*?-/", "", src, flags=re.S)
+        for line in src.split("\n"):
+            mm = re.match(r"\s*namespace\s+(\S+)", line)
+            if mm:
+                ns.append(mm.group(1))
+                continue
+            mm = re.match(r"\s*end\s+(\S+)", line)
+            if mm and ns and ns[-1] == mm.group(1):
+                ns.pop()
+                continue
+            mm = re.match(r"\s*(?:private\s+|protected\s+)?theorem\s+(\S+)", line)
+            if mm:
+                names.append(".".join(ns + [mm.group(1)]))
+    return names
 
 
 def facts_failing(out):
@@ -492,7 +551,7 @@ def write_evidence(spec, res, obligations, violations, t0):
             " ".join(spec.get("modules", []) + (["Sheens.Props.FactsOK"] if spec.get("facts") else [])), res.pid, res.tier),
         "trusted_base": TRUSTED_BASE + spec.get("trusted_extra", []),
         "obligation_list": [{"name": n, "discharged": ok, **({"detail": d} if d else {})} for n, ok, d in obligations],
-        "theorems": spec.get("theorems", []),
+        "theorems": res.extra.get("theorems", spec.get("theorems", [])),
         "theorem_notes": spec.get("theorem_notes", ""),
         "evaluations": res.evaluations,
         "distinct_nontrivial": len(res.keys),
